@@ -1,0 +1,121 @@
+//! Verification hooks for the training front end.
+//! Compiled only with `--cfg vibrato_verif`. Read-only except `verif_replace_raw_model`,
+//! which exists so that a harness can inject a weight vector into a really trained model.
+#![allow(missing_docs)]
+
+use std::num::NonZeroU32;
+
+use hashbrown::HashMap;
+
+use crate::common;
+use crate::errors::Result;
+use crate::trainer::config::TrainerConfig;
+use crate::trainer::feature_rewriter::{FeatureRewriter, FeatureRewriterBuilder};
+use crate::trainer::model::Model;
+
+/// Which feature set of a template file / which section of rewrite.def.
+#[derive(Clone, Copy, Debug, PartialEq, Eq)]
+pub enum Kind {
+    Unigram,
+    Left,
+    Right,
+}
+
+impl Model {
+    /// bincode image of the raw CRF model (`rucrf::RawModel`).
+    pub fn verif_raw_model_bytes(&self) -> Vec<u8> {
+        bincode::encode_to_vec(&self.data.raw_model, common::bincode_config()).unwrap()
+    }
+
+    /// Replaces the raw CRF model by one decoded from `bytes`.
+    pub fn verif_replace_raw_model(&mut self, bytes: &[u8]) -> Result<()> {
+        let (raw, _): (rucrf::RawModel, usize) =
+            bincode::decode_from_slice(bytes, common::bincode_config())?;
+        self.data.raw_model = raw;
+        self.merged_model = None;
+        Ok(())
+    }
+
+    /// Interned (string, id) pairs of the unigram / left / right features.
+    pub fn verif_feature_ids(&self, kind: Kind) -> Vec<(String, u32)> {
+        let fe = &self.data.config.feature_extractor;
+        let m: &HashMap<String, NonZeroU32> = match kind {
+            Kind::Unigram => &fe.unigram_feature_ids,
+            Kind::Left => &fe.left_feature_ids,
+            Kind::Right => &fe.right_feature_ids,
+        };
+        let mut v: Vec<_> = m.iter().map(|(k, v)| (k.clone(), v.get())).collect();
+        v.sort();
+        v
+    }
+
+    /// Surfaces of the seed lexicon in label order.
+    pub fn verif_surfaces(&self) -> Vec<String> {
+        self.data.config.surfaces.clone()
+    }
+
+    /// Label ids (1-origin) of the user entries in the order they were read.
+    pub fn verif_user_labels(&self) -> Vec<u32> {
+        self.user_entries.iter().map(|e| e.2.get()).collect()
+    }
+}
+
+/// Applies an ordered rule list to a feature list.
+pub fn rewrite(rules: &[(Vec<String>, Vec<String>)], features: &[String]) -> Option<Vec<String>> {
+    let mut b = FeatureRewriterBuilder::new();
+    for (pattern, rewrite) in rules {
+        b.add_rule(pattern, rewrite);
+    }
+    FeatureRewriter::from(b).rewrite(features)
+}
+
+/// Parses a rewrite.def text and applies the chosen section to a feature list.
+pub fn rewrite_def(text: &str, kind: Kind, features: &[String]) -> Result<Option<Vec<String>>> {
+    let (u, l, r) = TrainerConfig::verif_parse_rewrite_config(text.as_bytes())?;
+    Ok(match kind {
+        Kind::Unigram => u.rewrite(features),
+        Kind::Left => l.rewrite(features),
+        Kind::Right => r.rewrite(features),
+    })
+}
+
+/// Expands the templates of a feature.def text over feature rows, interning strings across
+/// rows in the given order. Returns per row the feature ids (None = template yields nothing)
+/// and finally the interned (string, id) table.
+#[allow(clippy::type_complexity)]
+pub fn expand_templates(
+    feature_def: &str,
+    kind: Kind,
+    rows: &[(Vec<String>, u32)],
+) -> Result<(Vec<Vec<Option<u32>>>, Vec<(String, u32)>)> {
+    let mut fe = TrainerConfig::parse_feature_config(feature_def.as_bytes())?;
+    let mut out = vec![];
+    for (features, cate_id) in rows {
+        let ids: Vec<Option<u32>> = match kind {
+            Kind::Unigram => fe
+                .verif_extract_unigram_feature_ids_opt(features, *cate_id)
+                .into_iter()
+                .map(|x| x.map(|x| x.get()))
+                .collect(),
+            Kind::Left => fe
+                .extract_left_feature_ids(features)
+                .into_iter()
+                .map(|x| x.map(|x| x.get()))
+                .collect(),
+            Kind::Right => fe
+                .extract_right_feature_ids(features)
+                .into_iter()
+                .map(|x| x.map(|x| x.get()))
+                .collect(),
+        };
+        out.push(ids);
+    }
+    let m = match kind {
+        Kind::Unigram => &fe.unigram_feature_ids,
+        Kind::Left => &fe.left_feature_ids,
+        Kind::Right => &fe.right_feature_ids,
+    };
+    let mut table: Vec<_> = m.iter().map(|(k, v)| (k.clone(), v.get())).collect();
+    table.sort();
+    Ok((out, table))
+}
